@@ -24,7 +24,8 @@ META = {
                    "never existed / created in this block / null) with a free 32-bit index, seven kinds of object where the signature "
                    "belongs, symbolic values. Accepted implies the stated conditions; rejected implies an exception and an untouched "
                    "pre-state. Frame: validation reads the unspent map only at the parent id (read log). The signed message determines "
-                   "all references and outputs (clause d).",
+                   "all references and outputs (clause d). The relay entry (handle_block_received) is driven with unauthorised spends "
+                   "on the head's branch and on a side branch (harness shared with C09).",
     "technique": "CrossHair symbolic execution of CoinState.add_block on a directly constructed chain state (one step from an arbitrary parent state)",
     "bounds": "<= 2 ordinary transactions, <= 2 inputs, <= 2 outputs, parent unspent map of 6 entries (4 symbolic values), values < 2^64 as a "
               "16-bit window or full range where the solver copes, index < 2^32",
@@ -221,10 +222,20 @@ def signed_message(nin_a: int, nout_a: int, nin_b: int, nout_b: int, twin: bool 
     return check_signed_message, {"vs": witness(both)}
 
 
+def relayed(kind: str, served_head: str = "P", twin: bool = False, real: bool = False):
+    """The other entry to full validation named in the statement: a block relayed by a peer above the horizon, delivered to
+    the real handle_block_received (harness of C09). A block with an unauthorised spend must not enter the chain state,
+    whether or not it would become the head."""
+    from harness import c09_relay
+    return c09_relay.delivery(c09_relay.KINDS.index(kind), served_head=served_head, twin=twin, real=real)
+
+
 def obligations(tier: str, known: List[str]) -> List[Ob]:
     thorough = tier == "thorough"
     obs: List[Ob] = []
     T = 1500 if thorough else 600
+    for kind in ("wrong-signature", "wrong-signature-on-side-branch", "apply-error-missing-output"):
+        obs.append(Ob("relayed-block[%s]" % kind, C_A + "; " + C_R, "relayed", {"kind": kind}, timeout=T))
     for shape in SHAPES:
         for c in range(10):
             if not thorough and shape == "2in" and c in (2, 3, 6):
